@@ -3,6 +3,7 @@ package catalog
 import (
 	"errors"
 	"fmt"
+	"strings"
 
 	schema "github.com/jsightapi/jsight-schema-core"
 	"github.com/jsightapi/jsight-schema-core/bytes"
@@ -205,9 +206,11 @@ func (c *Catalog) AddDescriptionToInfo(text string) error {
 // of the interaction in the exchange document, and quoted parameters with blanks can make the texts of two different
 // interactions coincide (the method "foo" of the URL "/x /a" and the method "foo /x" of the URL "/a").
 func (c *Catalog) hasInteractionWritten(id string) bool {
+	// As the JSON encoder writes it: a byte that is not valid UTF-8 becomes U+FFFD, so "/a\xff" and "/a\xfe" are one key.
+	written := func(s string) string { return strings.ToValidUTF8(s, "\uFFFD") }
 	found := false
 	c.Interactions.EachSafe(func(k InteractionID, _ Interaction) {
-		if k.String() == id {
+		if written(k.String()) == written(id) {
 			found = true
 		}
 	})
